@@ -29,6 +29,7 @@ CONSTANTS
   BatchSize,    \* queries per batch (evaluated concurrently)
   Datasets,     \* names of the data sets the harness knows how to build
   IllTyped,     \* BOOLEAN: allow one type-incorrect argument per query
+  EnumMode,     \* TRUE: no random walk -- enumerate every template once over representative leaves
   EmitOn
 
 VARIABLES stack, batch, data, fin,
@@ -159,7 +160,28 @@ Params == {[k |-> "i", t |-> 100, e |-> 100, st |-> 0],
            [k |-> "r", t |-> 200, e |-> 500, st |-> 100]}
 
 -----------------------------------------------------------------------------
-Init == stack = <<>> /\ batch = <<>> /\ data \in Datasets /\ fin = FALSE /\ kind = ""
+\* ---- EnumMode: every template, applied to each combination of a few representative leaves, as an instant
+\* and as a range query over the data set that has every kind of series.  One query per initial state;
+\* the driver groups them into batches of BatchSize in emission order.
+Rep(ty, multi) ==
+  CASE ty = "v" -> IF multi THEN {"m", "h"} ELSE {"m", "h", "mix", "nanv"}
+    [] ty = "m" -> {"m[1m]", "h[1m]", "mix[5m]", "stale[30s]", "c[1m]"}
+    [] ty = "s" -> {"2", "NaN"}
+    [] ty = "t" -> {"\"a\""}
+RepParams == {[k |-> "i", t |-> 100, e |-> 100, st |-> 0], [k |-> "r", t |-> 0, e |-> 300, st |-> 30]}
+EnumQueries ==
+  UNION {LET hs == Holes(tp)
+             n  == Len(hs)
+             nv == Cardinality({k \in 1..n : hs[k] = "$v"})
+             as == {a \in [1..n -> UNION {Rep(ty, FALSE) : ty \in {"v", "m", "s", "t"}}] :
+                      \A k \in 1..n : a[k] \in Rep(HoleTy(hs[k]), nv > 1)}
+         IN {[q |-> Fill(tp.p, [k \in 1..n |-> [s |-> a[k], atom |-> TRUE]]), ty |-> tp.ret, p |-> p, ill |-> FALSE, nd |-> tp.nd]
+               : a \in as, p \in RepParams}
+         : tp \in Templates}
+
+Init == /\ stack = <<>> /\ kind = ""
+        /\ IF EnumMode THEN data = "full" /\ fin = TRUE /\ \E x \in EnumQueries : batch = <<x>>
+                       ELSE data \in Datasets /\ fin = FALSE /\ batch = <<>>
 \* a type-incorrect argument is only ever introduced by the first reduction of a query
 FirstReduction == \A k \in 1..Len(stack) : stack[k].d = 0
 
